@@ -564,7 +564,7 @@ def root_index(snap, idx):
 REF_ARG_KEYS = ("t", "x", "y", "p", "d", "parent")
 # ops that must not change any pre-existing object at all
 OBSERVERS = ("clone", "export_leaf", "template_clone", "get_values", "hold_list", "validate", "doc_validate",
-             "validate_custom", "save", "load", "restart", "advance", "damage_file")
+             "validate_custom", "validate_keep", "validate_rerun", "validate_optional", "save", "load", "restart", "advance", "damage_file")
 
 
 def footprint(ctx):
@@ -785,7 +785,8 @@ def valid_prelude(U, interp, env, mem):
     mem["probe_issues"] = probe_issues(mem["probe"])
 
 
-VALIDATION_OPS = ("validate", "doc_validate", "validate_custom")
+VALIDATION_OPS = ("validate", "doc_validate", "validate_custom", "validate_keep", "validate_rerun",
+                  "validate_optional")
 
 
 def mon_valid(ctx):
@@ -798,7 +799,9 @@ def mon_valid(ctx):
             # whether a validation may raise is C08's statement, not C19's: only purity is judged
             return None
         out = ctx.outcome[1]
-        if ctx.name in ("validate", "doc_validate"):
+        if ctx.name == "validate_keep":
+            return None
+        if ctx.name in ("validate", "doc_validate", "validate_rerun", "validate_optional"):
             if out["issues"] != out["again"] or out["issues"] != out["rerun"]:
                 a = [i for i in out["issues"] if i not in out["again"]]
                 b = [i for i in out["again"] if i not in out["issues"]]
